@@ -417,6 +417,10 @@ def _parse_config_section(
                     seen_paths=seen_paths,
                 )
         elif key == "disable_all":
+            if not isinstance(value, bool):
+                raise InvalidConfigOption(
+                    f"disable_all must be a boolean, not {value!r}"
+                )
             disable_all_default_error_codes = value
         else:
             try:
